@@ -172,10 +172,14 @@ def sbinop(op, signed, l, r, s):
 # ---------------------------------------------------------------- builder
 
 
-def build(t):
-    """amoco expression through the operator API (fresh leaf objects per occurrence)"""
+def build(t, raw=False):
+    """amoco expression through the operator API (fresh leaf objects per occurrence).
+    raw=True: binary operator nodes are made with the node constructor E.op(symbol, l, r), as architecture
+    code does, so that no rewriting happens before simplify() is called"""
     from amoco.cas import expressions as E
 
+    if raw:
+        return _build_raw(t)
     k = t[0]
     if k == "reg":
         return E.reg(t[1], t[2])
@@ -258,6 +262,28 @@ def build(t):
         if op == "%":
             return l % r
     raise ValueError(t)
+
+
+def _build_raw(t):
+    from amoco.cas import expressions as E
+
+    k = t[0]
+    if k == "bin":
+        return E.op(t[1], _build_raw(t[2]), _build_raw(t[3]))
+    if k == "un":
+        x = _build_raw(t[2])
+        return ~x if t[1] == "~" else -x
+    if k == "slc":
+        return _build_raw(t[1])[t[2]: t[2] + t[3]]
+    if k == "cmp":
+        return E.composer([_build_raw(p) for p in t[1]])
+    if k == "tst":
+        return E.tst(_build_raw(t[1]), _build_raw(t[2]), _build_raw(t[3]))
+    if k == "zx":
+        return _build_raw(t[1]).zeroextend(t[2])
+    if k == "sx":
+        return _build_raw(t[1]).signextend(t[2])
+    return build(t)
 
 
 def regs_of(t, acc=None):
